@@ -4785,7 +4785,17 @@ def from_dask_array(x, columns=None, index=None, meta=None):
     if columns is not None and not len(columns):
         columns = None
     df = from_dask_array(x, columns=columns, index=index, meta=meta)
-    return from_legacy_dataframe(df, optimize=True)
+    keys = df.__dask_keys__()
+    graph = df.__dask_optimize__(df.dask, keys)
+    # The legacy implementation names its output after (x, columns) only: include
+    # the other arguments, or the tasks of collections that differ in them
+    # overwrite each other as soon as their graphs are merged
+    name = "from-dask-array-" + _tokenize_deterministic(x, columns, index, meta)
+    rename = {key: (name, key[1]) for key in keys}
+    graph = {rename.get(key, key): task for key, task in dict(graph).items()}
+    return from_graph(
+        graph, df._meta, df.divisions, list(rename.values()), "from-dask-array"
+    )
 
 
 def read_csv(
